@@ -254,9 +254,53 @@ def corpus_cases():
     return out
 
 
+def run_reuse_case(ctx, d):
+    """ONE IntegratedGradients object reused: explain, assign another baseline_value (and steps), explain again
+    inputs of the same shape.  Quadratic integer score: completeness is exact, so the sum of the attributions
+    must be score(x) - score(CURRENT baseline) at every call (added after a seeded change was missed)."""
+    import tensorflow as tf
+    from xplique.attributions import IntegratedGradients
+    from common import PolyModel
+    rng = np.random.default_rng(d["case_seed"])
+    shape = tuple(d["shape"])
+    nflat = int(np.prod(shape))
+    pm = PolyModel(rng, nflat, nc=2, quad=3, cub=0, coef=2)
+    op = lambda f, x, y: tf.reduce_sum(f(x) * y, -1)  # noqa: E731
+    n = d["N"]
+    y = small_ints(rng, (n, 2), -2, 2)
+    y[:, 0] += 1
+    ok, expl = ctx.impl_call(d, lambda: IntegratedGradients(pm.tf_outputs, operator=op, steps=d["steps"][0],
+                                                            baseline_value=float(d["baselines"][0]), batch_size=d["bs"]))
+    ctx.case(d, True)
+    ctx.count("reuse_cases")
+    if not ok:
+        return
+    for c, (b, st) in enumerate(zip(d["baselines"], d["steps"])):
+        expl.baseline_value = float(b)
+        expl.steps = int(st)
+        x = small_ints(rng, (n,) + shape, -2, 2)
+        ok, out = ctx.impl_call(d, lambda: expl(x, y).numpy(), signature="reuse-call")
+        if not ok:
+            return
+        xf = x.reshape(n, -1).astype(np.float64)
+        sx = (pm.outputs(xf) * y).sum(-1)
+        sb = (pm.outputs(np.full_like(xf, float(b))) * y).sum(-1)
+        tot = out.reshape(n, -1).astype(np.float64).sum(-1)
+        ctx.check_prop("completeness-after-baseline-change", bool(np.allclose(tot, sx - sb, rtol=1e-5, atol=1e-4)), d,
+                       {"call": c, "baseline_value": b, "steps": st, "sum_attributions": tot.tolist(),
+                        "score_x_minus_score_baseline": (sx - sb).tolist()})
+
+
 def run(ctx):
     for d in corpus_cases() + gen_cases(ctx):
         run_case(ctx, d)
+    rng = ctx.rng
+    for _ in range((12 if ctx.tier == "thorough" else 3) * ctx.budget_scale):
+        k = int(rng.integers(2, 5))
+        run_reuse_case(ctx, {"family": "reuse", "shape": [[4], [2, 3], [3, 2, 2]][int(rng.integers(3))], "N": int(rng.integers(1, 4)),
+                             "baselines": [float(v) for v in rng.choice([0.0, 1.0, -2.0, 0.5, -0.75], size=k)],
+                             "steps": [int(v) for v in rng.choice([2, 3, 5, 9], size=k)],
+                             "bs": [None, 1, 4, 64][int(rng.integers(4))], "case_seed": int(rng.integers(1 << 31))})
 
 
 def extra(ctx):
@@ -270,6 +314,10 @@ def extra(ctx):
 
 
 def replay(ctx, r):
+    _d = r["case"] if "case" in r else r["first_disagreement"][0]
+    if isinstance(_d, dict) and _d.get("family") == "reuse":
+        run_reuse_case(ctx, _d)
+        return
     case = r.get("case") or ((r.get("first_disagreement") or [None])[0])
     if case is None:        # broken proof obligation without a failing input: the Lean stage re-checks it
         for d in corpus_cases():
